@@ -5,12 +5,16 @@
    How it is decided here: each variant has its own executable model, tied to its own
    implementation by correspondence (machines 1-10), both models are parametric in the SAME
    position / fingerprint / rank functions, and the two implementations are run in lock-step on
-   common histories with their answers compared (pair suites). Proved outright for
-   Count-Min: the Redis model REFINES the memory model (constructor, Update, Count, every history
-   below 2^53). For the other structures the refinement theorems are PARTIAL: proved below are
-   the shared pieces the agreement rests on. *)
-From GX.Model Require Import Base CMS HLL Cuckoo Heap TopK Redis RedisCMS RedisHLL RedisCuckoo RedisTopK.
-From GX.Proofs Require Import ListLemmas HLLProofs CMSProofs RedisCMSRefine RedisHLLRefine.
+   common histories with their answers compared (pair suites). Proved outright: for
+   Count-Min the Redis model REFINES the memory model (constructor, Update, Count, every history
+   below 2^53); for HyperLogLog the update / merge / harmonic-sum scripts refine the register
+   operations; for Bloom the SETBIT/GETBIT string and the extending bitset hold the same bits
+   after the same inserts, so every Lookup answers alike on every history
+   (C08_bloom_same_answers_on_every_history). For Top-K and cuckoo the two variants order ties /
+   slots differently by design: both are proved to satisfy the same invariants (C04, C13, C14,
+   C02) and share the pieces below. *)
+From GX.Model Require Import Base CMS Bloom HLL Cuckoo Heap TopK Redis RedisCMS RedisHLL RedisBloom RedisCuckoo RedisTopK.
+From GX.Proofs Require Import ListLemmas HLLProofs CMSProofs RedisCMSRefine RedisHLLRefine RedisBloomRefine.
 From Coq Require Import Lia ZifyN ZifyBool.
 
 (* HyperLogLog: the Redis update rule (keep the larger of the stored value and uint8(count)) and
@@ -98,6 +102,22 @@ Proof. exact hll_merge_refines. Qed.
 Theorem C08_hll_same_harmonic_sum : forall s h mh, hrefines s h mh -> rhll_hmean_num s h = Some (hll_hsum_num mh).
 Proof. exact hll_hsum_refines. Qed.
 
+(* Bloom: same bits after the same inserts, same answers to every Lookup *)
+Theorem C08_bloom_new_refines : forall s size0 k0 key meta h s' f,
+  rbloom_new s size0 k0 key meta = (Ok h, s') -> bloom_new_params size0 k0 = Ok f -> meta <> key ->
+  brefines s' h f.
+Proof. exact bloom_new_refines. Qed.
+Theorem C08_bloom_insert_refines : forall bpos s h f x, brefines s h f ->
+  fst (rbloom_insert bpos s h x) = Ok tt /\
+  brefines (snd (rbloom_insert bpos s h x)) h (bloom_insert bpos f x).
+Proof. exact bloom_insert_refines. Qed.
+Theorem C08_bloom_lookup_refines : forall bpos s h f x, brefines s h f ->
+  rbloom_lookup bpos s h x = Ok (bloom_lookup bpos f x).
+Proof. exact bloom_lookup_refines. Qed.
+Theorem C08_bloom_same_answers_on_every_history : forall bpos s h f xs x, brefines s h f ->
+  rbloom_lookup bpos (rbrun' bpos s h xs) h x = Ok (bloom_lookup bpos (mbrun bpos f xs) x).
+Proof. exact redis_and_memory_bloom_agree. Qed.
+
 Print Assumptions C08_hll_same_register_rule.
 Print Assumptions C08_cuckoo_same_positions.
 Print Assumptions C08_topk_same_order.
@@ -107,3 +127,4 @@ Print Assumptions C08_cms_count_refines.
 Print Assumptions C08_cms_same_answers_on_every_history.
 Print Assumptions C08_hll_update_refines.
 Print Assumptions C08_hll_same_harmonic_sum.
+Print Assumptions C08_bloom_same_answers_on_every_history.
